@@ -18,6 +18,13 @@ from translate.c13_nullstr import find_def, fn_body, module_constants
 from translate.c13_vpk import _fmt_widths, _local_env, _resolve, _struct_site
 
 
+def _is_struct_binding(v, mconsts: dict) -> bool:
+    """`struct.Struct(fmt)` or the name of a module constant bound to one: a local alias of a precompiled struct, not an operation"""
+    r = _resolve(v, mconsts)
+    src = ast.unparse(r)
+    return isinstance(r, ast.Call) and (src.startswith('struct.Struct(') or src.startswith('Struct('))
+
+
 def _is_file_call(e, fvar: str, attr: str):
     return isinstance(e, ast.Call) and isinstance(e.func, ast.Attribute) and e.func.attr == attr and isinstance(e.func.value, ast.Name) \
         and e.func.value.id == fvar and not e.keywords
@@ -89,7 +96,7 @@ class _Writer:
         iv = self.info_var
         if isinstance(s, ast.Assign) and len(s.targets) == 1 and isinstance(s.targets[0], ast.Name):
             v = ast.unparse(s.value)
-            if v in ('operator.itemgetter(0)', 'itemgetter(0)') or v.startswith('struct.Struct(') or v.startswith('Struct(') or (
+            if v in ('operator.itemgetter(0)', 'itemgetter(0)') or _is_struct_binding(s.value, self.mconsts) or (
                     isinstance(s.value, ast.Lambda) and len(s.value.args.args) == 1 and ast.unparse(s.value.body) == f'{s.value.args.args[0].arg}[0]'):
                 return True
             if iv and self.is_idx(s.value):
@@ -212,6 +219,13 @@ def translate_writer(tree: ast.Module) -> tuple[str, dict]:
             and ast.unparse(op.args[0]) == 'self.path' and isinstance(op.args[1], ast.Constant) and op.args[1].value == 'wb'):
         raise TranslateError(f"write_dirfile: the file is not opened as open(self.path, 'wb'): {ast.unparse(op)!r}")
     # statements around the with block: the writability guard, the refusal of version 2, nothing else that touches the file
+    refuses_v2 = False
+    for s in fn_body(fn):
+        if s is w:
+            break
+        if isinstance(s, ast.If) and not s.orelse and len(s.body) == 1 and isinstance(s.body[0], ast.Raise) \
+                and ast.unparse(s.test) in ('self.version > 1', 'self.version >= 2', 'self.version != 1', '1 < self.version', 'not self.version == 1', 'self.version not in (1,)'):
+            refuses_v2 = True       # before the file is opened (and truncated)
     for s in fn_body(fn):
         if s is w or (isinstance(s, ast.Expr) and isinstance(s.value, ast.Constant)):
             continue
@@ -236,8 +250,10 @@ def translate_writer(tree: ast.Module) -> tuple[str, dict]:
             f'          {b(ext["skip"])} {ops(ext["pre"])} {b(dr["skip"])} {ops(dr["pre"])}\n'
             f'          {ops(fl["pre"])}\n'
             f'          {ops(dr["post"])} {ops(ext["post"])}\n'
-            f'          {ops(top["post"])}.')
-    side = {'before': top['pre'], 'ext': {k: ext[k] for k in ('pre', 'post', 'skip', 'sorted', 'right')},
+            f'          {ops(top["post"])}.\n'
+            '(* `if self.version > 1: raise` before the file is opened: the writer only knows the version-1 layout (HVer is 1 in wexec) *)\n'
+            f'Definition g_write_refuses_v2 : bool := {b(refuses_v2)}.')
+    side = {'refuses_v2': refuses_v2, 'before': top['pre'], 'ext': {k: ext[k] for k in ('pre', 'post', 'skip', 'sorted', 'right')},
             'dir': {k: dr[k] for k in ('pre', 'post', 'skip', 'sorted', 'right')}, 'file': {k: fl[k] for k in ('pre', 'sorted', 'right')},
             'after': top['post'], 'line': fn.lineno, 'digest': ast_digest(fn)}
     return text, side
@@ -329,7 +345,7 @@ class _Reader:
             return None
         if isinstance(s, ast.Assign) and len(s.targets) == 1:
             t, v = s.targets[0], s.value
-            if isinstance(t, ast.Name) and (ast.unparse(v).startswith('struct.Struct(') or ast.unparse(v).startswith('Struct(')):
+            if isinstance(t, ast.Name) and _is_struct_binding(v, self.mconsts):
                 return None
             ws = self.read_site(v)
             if ws is not None and isinstance(t, ast.Tuple) and all(isinstance(x, ast.Name) for x in t.elts) and len(t.elts) == len(ws) and not self.hdr_vars:
